@@ -40,6 +40,9 @@ type fileConfig struct {
 	callbacks    []ConfigReloadCallback
 	mux          sync.RWMutex
 	lastLoadTime time.Time
+	// currentVersion is the version startup validated against; reloads must judge
+	// deprecations the same way startup did.
+	currentVersion []string
 }
 
 // ensure that fileConfig implements Config
@@ -644,6 +647,7 @@ func NewConfig(opts *CmdEnv, currentVersion ...string) (Config, error) {
 	}
 
 	cfg.callbacks = make([]ConfigReloadCallback, 0)
+	cfg.currentVersion = currentVersion
 
 	return cfg, err
 }
@@ -665,9 +669,11 @@ func (f *fileConfig) Reload(opts ...ReloadedConfigDataOption) error {
 		opt(newData)
 	}
 
-	// reread the configs
-	cfg, err := newFileConfig(f.opts, newData.configs, newData.rules)
-	if err != nil {
+	// reread the configs, validating them exactly as startup did
+	cfg, err := newFileConfig(f.opts, newData.configs, newData.rules, f.currentVersion...)
+	// as in NewConfig, only a nil cfg is fatal; a non-nil cfg with an error carries
+	// warnings only, and a config that startup accepts must be accepted here too
+	if cfg == nil {
 		return err
 	}
 
